@@ -270,6 +270,39 @@ def pull (cfg : StoCfg S R) (s : StoSOO α R S) (time : Nat) (ds : List (Draw α
   let (P', ds', bmax, h, j, id) ← loop cfg time (s.P.depth + 4) 0 cfg.negInf s.P ds
   return ({ s with P := P', iteration := time, bmax := bmax, sel := some (h, j) }, ds', id)
 
+/-- State left behind by a `pull` that falls off the end of the loop and returns `None`
+(the refreshed `b` values, the expansions made on the way and `b_max` stay): the driver uses it
+to keep following the implementation after such a call.  Mirrors `loop`. -/
+def loopN (cfg : StoCfg S R) (time : Nat) :
+    Nat → Nat → S → Part α (TBSt R S) → List (Draw α) → Option (Part α (TBSt R S) × S)
+  | 0, _, _, _, _ => none
+  | fuel + 1, h, bmax, P, ds =>
+    if h ≤ min (P.depth + 1) cfg.hmax then
+      if time ≤ cfg.n then
+        match P.layers[h]? with
+        | none => none
+        | some layer =>
+          match scan cfg layer 0 P none with
+          | (P1, none) => loopN cfg time fuel (h + 1) bmax P1 ds
+          | (P1, some (_, id, b)) =>
+            if bmax ≤ b then
+              match P1.nodes[id]? with
+              | none => none
+              | some nd =>
+                if cfg.countLT nd.st.count then none
+                else
+                  match P1.makeChildrenD (st0 cfg) id (decide (h ≥ P1.depth)) ds with
+                  | .ok (P2, ds') => loopN cfg time fuel (h + 1) b P2 ds'
+                  | .error _ => none
+            else loopN cfg time fuel (h + 1) bmax P1 ds
+      else none
+    else some (P, bmax)
+
+def pullNone (cfg : StoCfg S R) (s : StoSOO α R S) (time : Nat) (ds : List (Draw α)) : StoSOO α R S :=
+  match loopN cfg time (s.P.depth + 4) 0 cfg.negInf s.P ds with
+  | some (P, bmax) => { s with P := P, iteration := time, bmax := bmax }
+  | none => s
+
 def receive (cfg : StoCfg S R) (s : StoSOO α R S) (r : R) : Except Err (StoSOO α R S) :=
   match s.sel with
   | none => .error .noneDeref
